@@ -80,6 +80,9 @@ func GenSSHCertFileString(username string, userPubKey string, signer ssh.Signer,
 		return "", cert, err
 	}
 	keyIdentity := host_identity + "_" + username
+	if duration < 0 {
+		return "", cert, errors.New("negative certificate duration")
+	}
 
 	currentEpoch := uint64(time.Now().Unix())
 	expireEpoch := currentEpoch + uint64(duration.Seconds())
